@@ -69,8 +69,7 @@ theorem filterApplies_plain (ff : String) (q : Val) (gs : Fields) (hn : PlainNam
       ne_of_not_dollar hn.nodollar' (by decide +kernel),
       ne_of_not_dollar hn.nodollar' (by decide +kernel)⟩
   have hc : candsKey ff (.doc gs) = .ok [dget ff gs] := by
-    have hk : keyOk ff = true := by simp [keyOk, hn.split, hn.ne]
-    simp [candsKey, hn.ne, hk, hn.split, cands]
+    simp [candsKey, hn.split, cands]
   have hkey := applyKey_plain_nondoc q ff (.doc gs) [dget ff gs] (fun fs e => hq fs e) hc
   show applyFields [(ff, q)] (.doc gs) = _
   rw [applyFields_cons]
